@@ -1,6 +1,21 @@
 (* HeapProofs.v -- lemmas about lib/Heap.v (container/heap model).
-   Main results (see the summary at the end of the file):
-     hp_push_spec, hp_pop_spec, hp_top_min, hp_apply_basic_spec, hp_run_basic_spec. *)
+   Main results (Section HeapOps; all for every element type A and every
+   less : A -> A -> bool with hp_asym less and hp_negtrans less):
+     hp_heap_nil      the empty list is a heap
+     hp_push_spec     Push on a heap: HpOk l', heap, Permutation l' (x :: l), length + 1
+     hp_pop_spec      Pop on a non-empty heap: HpOk (l', m), heap, Permutation l (m :: l'),
+                      length - 1, m = element 0 = a minimum (no y in l with less y m)
+     hp_pop_empty     Pop on [] = HpPanic
+     hp_top_min       element 0 of a heap is a minimum
+     hp_init_spec     Init on ANY list: HpOk l', heap, permutation, same length
+     hp_fix_spec      Fix after overwriting element i (i valid) of a heap
+     hp_remove_spec   Remove(i), i valid: returns element i, rest is a heap, permutation
+     hp_apply_basic_spec / hp_run_basic_spec / hp_run_basic_panic
+                      sequences of Push/Pop/Top: no panic unless Pop on empty, invariant,
+                      multiset (final ++ popped ~ initial ++ pushed), exact length
+     hp_apply_spec / hp_run_spec
+                      sequences of all five calls: HpOk iff every call valid, else HpPanic;
+                      never HpNoFuel; invariant kept *)
 From Got Require Import Base Heap.
 Require Import Permutation.
 Local Open Scope nat_scope.
@@ -106,9 +121,16 @@ Section HeapProofs.
 
   Definition par (c : nat) : nat := (c - 1) / 2.
 
+  (* heap on the prefix of length n, restricted to the pairs whose parent index is >= m *)
+  Definition heap_from (m n : nat) (l : list A) : Prop :=
+    forall c, 0 < c < n -> m <= par c -> le (get l (par c)) (get l c).
+
   (* heap on the prefix of length n *)
   Definition heap_upto (n : nat) (l : list A) : Prop :=
     forall c, 0 < c < n -> le (get l (par c)) (get l c).
+
+  Lemma heap_from_0 n l : heap_from 0 n l <-> heap_upto n l.
+  Proof. unfold heap_from, heap_upto. split; intros H c Hc; [apply H; lia|intros _; apply H; lia]. Qed.
 
   Lemma hp_heap_iff (l : list A) : hp_heap less l <-> heap_upto (length l) l.
   Proof.
@@ -149,16 +171,18 @@ Section HeapProofs.
   Qed.
 
   (* ---------------------------------------------------------------- up *)
-  Definition up_inv (l : list A) (j : nat) : Prop :=
-    (forall c, 0 < c < length l -> c <> j -> le (get l (par c)) (get l c)) /\
-    (forall c, 0 < c < length l -> par c = j -> 0 < j -> le (get l (par j)) (get l c)).
+  (* up works on the prefix of length n (n = length l for Push/Fix, length l - 1 for Remove) *)
+  Definition up_inv (n : nat) (l : list A) (j : nat) : Prop :=
+    (forall c, 0 < c < n -> c <> j -> le (get l (par c)) (get l c)) /\
+    (forall c, 0 < c < n -> par c = j -> 0 < j -> le (get l (par j)) (get l c)).
 
-  Lemma hp_up_spec fuel : forall (l : list A) j,
-    j < length l -> j < fuel -> up_inv l j ->
-    exists l', hp_up less fuel l j = HpOk l' /\ heap_upto (length l') l' /\
-               Permutation l l' /\ length l' = length l.
+  Lemma hp_up_spec fuel : forall (l : list A) n j,
+    n <= length l -> j < n -> j < fuel -> up_inv n l j ->
+    exists l', hp_up less fuel l j = HpOk l' /\ heap_upto n l' /\
+               Permutation l l' /\ length l' = length l /\
+               (forall k, n <= k -> get l' k = get l k).
   Proof.
-    induction fuel as [|f IH]; intros l j Hj Hf [I1 I2]; [lia|].
+    induction fuel as [|f IH]; intros l n j Hn Hj Hf [I1 I2]; [lia|].
     cbn [hp_up]. fold (par j).
     destruct (Nat.eqb_spec (par j) j) as [E | E].
     - (* j = 0 *)
@@ -168,13 +192,14 @@ Section HeapProofs.
       pose proof (par_lt j Hj0) as Hp.
       rewrite hp_less_get by lia.
       destruct (less (get l j) (get l (par j))) eqn:El.
-      + destruct (hp_swap_some l (par j) j ltac:(lia) Hj) as [l' Hs]. rewrite Hs.
+      + destruct (hp_swap_some l (par j) j ltac:(lia) ltac:(lia)) as [l' Hs]. rewrite Hs.
         destruct (hp_swap_spec _ _ _ _ Hs) as (_ & _ & Hlen & Hperm & _).
         pose proof (fun k => hp_swap_get l l' (par j) j k Hs) as Hg.
-        destruct (IH l' (par j)) as (l'' & Hr & Hh & Hp' & Hl'').
+        destruct (IH l' n (par j)) as (l'' & Hr & Hh & Hp' & Hl'' & Hbey).
         * lia.
         * lia.
-        * unfold up_inv. rewrite Hlen. split.
+        * lia.
+        * split.
           -- intros c Hc Hne. rewrite !Hg.
              destruct (Nat.eqb_spec c j) as [-> | Hcj].
              ++ destruct (Nat.eqb_spec (par j) j); [lia|]. rewrite Nat.eqb_refl.
@@ -199,26 +224,30 @@ Section HeapProofs.
         * exists l''. repeat split; auto.
           -- eapply perm_trans; eassumption.
           -- lia.
+          -- intros k Hk. rewrite Hbey by exact Hk. rewrite Hg.
+             destruct (Nat.eqb_spec k j); [lia|]. destruct (Nat.eqb_spec k (par j)); [lia|]. reflexivity.
       + exists l. repeat split; auto. intros c Hc.
         destruct (Nat.eq_dec c j) as [-> | Hne]; [exact El|]. apply I1; lia.
   Qed.
 
   (* ---------------------------------------------------------------- down *)
-  Definition down_inv (n : nat) (l : list A) (i : nat) : Prop :=
-    (forall c, 0 < c < n -> par c <> i -> le (get l (par c)) (get l c)) /\
-    (forall c, 0 < c < n -> par c = i -> 0 < i -> le (get l (par i)) (get l c)).
+  (* m = lowest parent index whose pairs are required / established (0 for Pop, Fix,
+     Remove; i for the i-th iteration of Init) *)
+  Definition down_inv (m n : nat) (l : list A) (i : nat) : Prop :=
+    (forall c, 0 < c < n -> m <= par c -> par c <> i -> le (get l (par c)) (get l c)) /\
+    (forall c, 0 < c < n -> par c = i -> 0 < i -> m <= par i -> le (get l (par i)) (get l c)).
 
-  Lemma hp_down_loop_spec fuel : forall (l : list A) i n,
-    n <= length l -> n - i < fuel -> down_inv n l i ->
-    exists l' i', hp_down_loop less fuel l i n = HpOk (l', i') /\ heap_upto n l' /\
+  Lemma hp_down_loop_spec m fuel : forall (l : list A) i n,
+    n <= length l -> n - i < fuel -> m <= i -> down_inv m n l i ->
+    exists l' i', hp_down_loop less fuel l i n = HpOk (l', i') /\ heap_from m n l' /\
                   Permutation l l' /\ length l' = length l /\ i <= i' /\
                   (forall k, n <= k -> get l' k = get l k) /\
                   (i' = i -> l' = l).
   Proof.
-    induction fuel as [|f IH]; intros l i n Hn Hf [I1 I2]; [lia|].
+    induction fuel as [|f IH]; intros l i n Hn Hf Hmi [I1 I2]; [lia|].
     cbn [hp_down_loop].
     destruct (Nat.leb_spec n (2 * i + 1)) as [Hb | Hb].
-    - exists l, i. repeat split; auto. intros c Hc. apply I1; [lia|].
+    - exists l, i. repeat split; auto. intros c Hc Hm. apply I1; [lia|exact Hm|].
       intros E. apply par_child in E; lia.
     - remember (2 * i + 1) as j1 eqn:Ej1. remember (j1 + 1) as j2 eqn:Ej2.
       assert (Hsel : exists j, (if j2 <? n then hp_less less l j2 j1 else Some false)
@@ -258,23 +287,24 @@ Section HeapProofs.
         destruct (IH l' j n) as (l'' & i'' & Hr & Hh & Hp' & Hl'' & Hle & Hbey & _).
         * lia.
         * lia.
+        * lia.
         * split.
-          -- intros c Hc Hne. rewrite !Hg.
+          -- intros c Hc Hm Hne. rewrite !Hg.
              destruct (Nat.eqb_spec (par c) j); [contradiction|].
              destruct (Nat.eqb_spec c j) as [-> | Hcj].
              ++ rewrite Hpj, Nat.eqb_refl. apply hp_lt_le. exact El.
              ++ destruct (Nat.eqb_spec c i) as [-> | Hci].
                 ** pose proof (par_lt i ltac:(lia)).
                    destruct (Nat.eqb_spec (par i) i); [lia|].
-                   apply I2; [lia|exact Hpj|lia].
+                   apply I2; [lia|exact Hpj|lia|exact Hm].
                 ** destruct (Nat.eqb_spec (par c) i) as [Epc | Epc].
                    --- apply Hjmin; [lia|exact Epc].
-                   --- apply I1; [lia|exact Epc].
-          -- intros c Hc Epc _. rewrite !Hg. rewrite Hpj.
+                   --- apply I1; [lia|exact Hm|exact Epc].
+          -- intros c Hc Epc _ _. rewrite !Hg. rewrite Hpj.
              pose proof (par_lt c ltac:(lia)).
              destruct (Nat.eqb_spec i j); [lia|]. rewrite Nat.eqb_refl.
              destruct (Nat.eqb_spec c j); [lia|]. destruct (Nat.eqb_spec c i); [lia|].
-             rewrite <- Epc. apply I1; [lia|lia].
+             rewrite <- Epc. apply I1; [lia|lia|lia].
         * exists l'', i''. repeat split; auto.
           -- eapply perm_trans; eassumption.
           -- lia.
@@ -282,24 +312,140 @@ Section HeapProofs.
           -- intros k Hk. rewrite Hbey by exact Hk. rewrite Hg.
              destruct (Nat.eqb_spec k j); [lia|]. destruct (Nat.eqb_spec k i); [lia|]. reflexivity.
           -- lia.
-      + exists l, i. repeat split; auto. intros c Hc.
+      + exists l, i. repeat split; auto. intros c Hc Hm.
         destruct (Nat.eq_dec (par c) i) as [Epc | Epc].
         * rewrite Epc. eapply hp_le_trans; [exact El|]. apply Hjmin; [lia|exact Epc].
-        * apply I1; [lia|exact Epc].
+        * apply I1; [lia|exact Hm|exact Epc].
   Qed.
 
-  Lemma hp_down_spec (l : list A) i n :
-    n <= length l -> down_inv n l i ->
-    exists l' b, hp_down less (hp_down_fuel n) l i n = HpOk (l', b) /\ heap_upto n l' /\
+  (* no child of i (below n) is less than element i: down does not move anything *)
+  Lemma hp_down_loop_nomove f (l : list A) i n :
+    n <= length l -> i < n ->
+    (forall c, 0 < c < n -> par c = i -> le (get l i) (get l c)) ->
+    hp_down_loop less (S f) l i n = HpOk (l, i).
+  Proof.
+    intros Hn Hi Hch. cbn [hp_down_loop].
+    destruct (Nat.leb_spec n (2 * i + 1)) as [Hb | Hb]; [reflexivity|].
+    remember (2 * i + 1) as j1 eqn:Ej1. remember (j1 + 1) as j2 eqn:Ej2.
+    assert (H1 : le (get l i) (get l j1)) by (apply Hch; [lia|apply par_child; lia]).
+    destruct (Nat.ltb_spec j2 n) as [H2 | H2].
+    - assert (H2' : le (get l i) (get l j2)) by (apply Hch; [lia|apply par_child; lia]).
+      rewrite hp_less_get by lia.
+      destruct (less (get l j2) (get l j1)); rewrite hp_less_get by lia.
+      + rewrite H2'. reflexivity.
+      + rewrite H1. reflexivity.
+    - rewrite hp_less_get by lia. rewrite H1. reflexivity.
+  Qed.
+
+  Lemma hp_down_spec m (l : list A) i n :
+    n <= length l -> m <= i -> down_inv m n l i ->
+    exists l' b, hp_down less (hp_down_fuel n) l i n = HpOk (l', b) /\ heap_from m n l' /\
                  Permutation l l' /\ length l' = length l /\
                  (forall k, n <= k -> get l' k = get l k) /\
                  (b = false -> l' = l).
   Proof.
-    intros Hn Hinv.
-    destruct (hp_down_loop_spec (hp_down_fuel n) l i n Hn ltac:(unfold hp_down_fuel; lia) Hinv)
+    intros Hn Hmi Hinv.
+    destruct (hp_down_loop_spec m (hp_down_fuel n) l i n Hn ltac:(unfold hp_down_fuel; lia) Hmi Hinv)
       as (l' & i' & Hr & Hh & Hp & Hl & Hle & Hbey & Hsame).
     unfold hp_down. rewrite Hr. exists l', (i <? i'). repeat split; auto.
     intros Hb. apply Hsame. apply Nat.ltb_ge in Hb. lia.
+  Qed.
+
+  (* ---------------------------------------------------------------- Init *)
+  Lemma hp_init_loop_spec : forall cnt (l : list A) n,
+    n <= length l -> heap_from cnt n l ->
+    exists l', hp_init_loop less cnt l n = HpOk l' /\ heap_upto n l' /\
+               Permutation l l' /\ length l' = length l.
+  Proof.
+    induction cnt as [|i IH]; intros l n Hn Hh.
+    - exists l. split; [reflexivity|]. split; [apply heap_from_0; exact Hh|]. auto.
+    - cbn [hp_init_loop].
+      destruct (hp_down_spec i l i n Hn (le_n i)) as (l1 & b & Hr & Hh1 & Hp1 & Hl1 & _).
+      + split.
+        * intros c Hc Hm Hne. apply Hh; [exact Hc|lia].
+        * intros c Hc Epc Hi Hm. pose proof (par_lt i Hi). lia.
+      + rewrite Hr. destruct (IH l1 n ltac:(lia) Hh1) as (l' & Hr' & Hh' & Hp' & Hl').
+        exists l'. split; [exact Hr'|]. split; [exact Hh'|]. split; [eapply perm_trans; eassumption|lia].
+  Qed.
+
+  (* ---------------------------------------------------------------- Fix (on a prefix) *)
+  (* all parent/child pairs not involving i are fine, and the parent of i is <= the
+     children of i: the state after overwriting element i of a heap *)
+  Definition heap_except (n : nat) (l : list A) (i : nat) : Prop :=
+    (forall c, 0 < c < n -> c <> i -> par c <> i -> le (get l (par c)) (get l c)) /\
+    (forall c, 0 < c < n -> par c = i -> 0 < i -> le (get l (par i)) (get l c)).
+
+  Lemma hp_fix_prefix (l : list A) n i :
+    n <= length l -> i < n -> heap_except n l i ->
+    exists l1 b l',
+      hp_down less (hp_down_fuel n) l i n = HpOk (l1, b) /\
+      (if b then HpOk l1 else hp_up less (hp_up_fuel i) l1 i) = HpOk l' /\
+      heap_upto n l' /\ Permutation l l' /\ length l' = length l /\
+      (forall k, n <= k -> get l' k = get l k).
+  Proof.
+    intros Hn Hi [E1 E2].
+    assert (Hcase : (i = 0 \/ le (get l (par i)) (get l i)) \/
+                    (0 < i /\ less (get l i) (get l (par i)) = true)).
+    { destruct i; [left; left; reflexivity|].
+      destruct (less (get l (S i)) (get l (par (S i)))) eqn:E; [right; split; [lia|reflexivity]|left; right; reflexivity]. }
+    destruct Hcase as [HA | [Hi0 HB]].
+    - (* the element is not smaller than its parent: down may move it *)
+      destruct (hp_down_spec 0 l i n Hn ltac:(lia)) as (l1 & b & Hr & Hh1 & Hp1 & Hl1 & Hbey & Hsame).
+      + split.
+        * intros c Hc _ Hne. destruct (Nat.eq_dec c i) as [-> | Hci].
+          -- destruct HA as [-> | HA]; [lia|exact HA].
+          -- apply E1; assumption.
+        * intros c Hc Epc Hi0 _. apply E2; assumption.
+      + apply heap_from_0 in Hh1. exists l1, b. destruct b.
+        * exists l1. repeat split; auto.
+        * specialize (Hsame eq_refl). subst l1.
+          destruct (hp_up_spec (hp_up_fuel i) l n i Hn Hi ltac:(unfold hp_up_fuel; lia)) as (l' & Hr' & Hh' & Hp' & Hl' & Hbey').
+          -- split.
+             ++ intros c Hc _. apply Hh1. exact Hc.
+             ++ intros c Hc Epc Hi0. eapply hp_le_trans; [apply (Hh1 i); lia|].
+                rewrite <- Epc. apply Hh1. exact Hc.
+          -- exists l'. repeat split; auto.
+    - (* smaller than its parent, hence than its children: down does not move, up does *)
+      assert (Hch : forall c, 0 < c < n -> par c = i -> le (get l i) (get l c)).
+      { intros c Hc Epc. eapply hp_le_trans; [apply hp_lt_le; exact HB|]. apply E2; assumption. }
+      exists l, false.
+      destruct (hp_up_spec (hp_up_fuel i) l n i Hn Hi ltac:(unfold hp_up_fuel; lia)) as (l' & Hr' & Hh' & Hp' & Hl' & Hbey').
+      + split.
+        * intros c Hc Hne. destruct (Nat.eq_dec (par c) i) as [Epc | Epc].
+          -- rewrite Epc. apply Hch; assumption.
+          -- apply E1; assumption.
+        * intros c Hc Epc _. apply E2; assumption.
+      + exists l'. split.
+        * unfold hp_down, hp_down_fuel. rewrite (hp_down_loop_nomove n l i n Hn Hi Hch).
+          rewrite Nat.ltb_irrefl. reflexivity.
+        * repeat split; auto.
+  Qed.
+
+  (* h.Pop() of the user type: remove the last element *)
+  Lemma hp_pop_last_spec (l : list A) n :
+    length l = S n ->
+    hp_pop_last l = HpOk (firstn n l, get l n) /\ l = firstn n l ++ [get l n] /\
+    length (firstn n l) = n.
+  Proof.
+    intros Hl. unfold hp_pop_last. rewrite Hl.
+    rewrite (hp_nth_error_get l n) by lia. split; [reflexivity|]. split.
+    - rewrite <- (firstn_skipn n l) at 1. f_equal.
+      assert (Hsk : length (skipn n l) = 1) by (rewrite skipn_length; lia).
+      destruct (skipn n l) as [|z [|? ?]] eqn:Esk; cbn in Hsk; try lia.
+      f_equal.
+      rewrite <- (firstn_skipn n l) at 1.
+      rewrite app_nth2; rewrite firstn_length; [|lia].
+      replace (n - Nat.min n (length l)) with 0 by lia.
+      rewrite Esk. reflexivity.
+    - rewrite firstn_length. lia.
+  Qed.
+
+  Lemma heap_upto_firstn (l : list A) n :
+    n <= length l -> heap_upto n l -> heap_upto n (firstn n l).
+  Proof.
+    intros Hn Hh c Hc. pose proof (par_lt c ltac:(lia)).
+    specialize (Hh c Hc). rewrite <- (firstn_skipn n l) in Hh.
+    rewrite !app_nth1 in Hh by (rewrite firstn_length; lia). exact Hh.
   Qed.
 End HeapProofs.
 
@@ -309,6 +455,9 @@ Section HeapOps.
   Variable less : A -> A -> bool.
   Hypothesis Hasym : hp_asym less.
   Hypothesis Hnt : hp_negtrans less.
+
+  Lemma hp_heap_nil : hp_heap less (@nil A).
+  Proof. intros c x p _ H. destruct c; discriminate. Qed.
 
   (* Push: never panics, never runs out of fuel; heap invariant kept; the new array is a
      permutation of x :: old array; the length grows by exactly one *)
@@ -320,18 +469,19 @@ Section HeapOps.
     intros Hh. unfold hp_push.
     assert (Hlen : length (l ++ [x]) = S (length l)) by (rewrite app_length; cbn; lia).
     rewrite Hlen. replace (S (length l) - 1) with (length l) by lia.
-    destruct (hp_up_spec less Hasym Hnt x (hp_up_fuel (length l)) (l ++ [x]) (length l))
-      as (l' & Hr & Hh' & Hp & Hl').
+    destruct (hp_up_spec less Hasym Hnt x (hp_up_fuel (length l)) (l ++ [x]) (S (length l)) (length l))
+      as (l' & Hr & Hh' & Hp & Hl' & _).
+    - lia.
     - lia.
     - unfold hp_up_fuel. lia.
-    - split.
+    - unfold up_inv. rewrite <- Hlen. split.
       + intros c Hc Hne. rewrite Hlen in Hc.
         assert (Hp : par c < c) by (apply par_lt; lia).
         rewrite !app_nth1 by lia.
         apply (proj1 (hp_heap_iff less x l)); [exact Hh|lia].
       + intros c Hc Epc _. rewrite Hlen in Hc.
         apply par_child in Epc; lia.
-    - exists l'. split; [exact Hr|]. split; [apply (hp_heap_iff less x); exact Hh'|].
+    - exists l'. split; [exact Hr|]. split; [apply (hp_heap_iff less x); rewrite Hl', Hlen; exact Hh'|].
       split; [|lia].
       eapply perm_trans; [apply Permutation_sym; exact Hp|].
       apply Permutation_sym, Permutation_cons_append.
@@ -365,10 +515,11 @@ Section HeapOps.
     destruct (hp_swap_spec _ _ _ _ Hs) as (_ & _ & Hlen1 & Hperm1 & _).
     pose proof (fun k => hp_swap_get r l l1 0 (length t) k Hs) as Hg.
     pose proof (proj1 (hp_heap_iff less r l) Hh) as Hh0.
-    destruct (hp_down_spec less Hasym Hnt r l1 0 (length t)) as (l2 & b & Hr & Hh2 & Hp2 & Hl2 & Hbey & _).
+    destruct (hp_down_spec less Hasym Hnt r 0 l1 0 (length t)) as (l2 & b & Hr & Hh2 & Hp2 & Hl2 & Hbey & _).
+    - lia.
     - lia.
     - split.
-      + intros c Hc Hpc. rewrite !Hg.
+      + intros c Hc _ Hpc. rewrite !Hg.
         assert (Hp : par c < c) by (apply par_lt; lia).
         destruct (Nat.eqb_spec (par c) (length t)); [lia|].
         destruct (Nat.eqb_spec (par c) 0); [lia|].
@@ -394,7 +545,7 @@ Section HeapOps.
       split; [reflexivity|]. split.
       + apply (hp_heap_iff less r). rewrite Hfl. intros c Hc.
         assert (Hp : par c < c) by (apply par_lt; lia).
-        specialize (Hh2 c Hc). rewrite Hsplit in Hh2.
+        specialize (Hh2 c Hc ltac:(lia)). rewrite Hsplit in Hh2.
         rewrite !app_nth1 in Hh2 by lia. exact Hh2.
       + split.
         * eapply perm_trans; [exact Hperm1|]. eapply perm_trans; [exact Hp2|].
@@ -405,6 +556,95 @@ Section HeapOps.
 
   Lemma hp_pop_empty : hp_pop less (@nil A) = HpPanic.
   Proof. reflexivity. Qed.
+
+
+  (* ---------------------------------------------------------------- Init / Fix / Remove *)
+  (* Init turns ANY array into a heap with the same elements *)
+  Lemma hp_init_spec (l : list A) :
+    exists l', hp_init less l = HpOk l' /\ hp_heap less l' /\ Permutation l l' /\
+               length l' = length l.
+  Proof.
+    destruct l as [|r t]; [exists []; repeat split; auto; apply hp_heap_nil|].
+    set (l := r :: t). unfold hp_init.
+    destruct (hp_init_loop_spec less Hasym Hnt r (length l / 2) l (length l) (le_n _)) as (l' & Hr & Hh & Hp & Hl).
+    - intros c Hc Hm. exfalso. unfold par in Hm.
+      assert (length l / 2 <= (length l - 2) / 2) by (etransitivity; [exact Hm|]; apply Nat.div_le_mono; lia).
+      assert (length l = 2 + (length l - 2)) as E by lia. rewrite E in H at 1.
+      replace (2 + (length l - 2)) with (1 * 2 + (length l - 2)) in H by lia.
+      rewrite Nat.div_add_l in H by lia. lia.
+    - exists l'. split; [exact Hr|]. split; [apply (hp_heap_iff less r); rewrite Hl; exact Hh|]. auto.
+  Qed.
+
+  (* Fix after overwriting element i of a heap with any value *)
+  Lemma hp_fix_spec (l : list A) (i : nat) (x : A) :
+    hp_heap less l -> i < length l ->
+    exists l', hp_fix less (hp_set l i x) i = HpOk l' /\ hp_heap less l' /\
+               Permutation (hp_set l i x) l' /\ length l' = length l.
+  Proof.
+    intros Hh Hi. set (l1 := hp_set l i x).
+    assert (Hl1 : length l1 = length l) by apply hp_set_length.
+    assert (Hg : forall k, k <> i -> nth k l1 x = nth k l x).
+    { intros k Hk. destruct (Nat.lt_ge_cases k (length l)) as [Hkl | Hkl].
+      - assert (E : nth_error l1 k = nth_error l k).
+        { unfold l1. rewrite hp_set_nth_error by exact Hi. destruct (Nat.eqb_spec k i); [contradiction|reflexivity]. }
+        rewrite (hp_nth_error_get x l1 k) in E by lia. rewrite (hp_nth_error_get x l k) in E by lia. congruence.
+      - rewrite !nth_overflow by lia. reflexivity. }
+    pose proof (proj1 (hp_heap_iff less x l) Hh) as Hh0.
+    destruct (hp_fix_prefix less Hasym Hnt x l1 (length l1) i (le_n _) ltac:(lia)) as (l2 & b & l' & Hd & Hu & Hh' & Hp & Hl' & _).
+    - rewrite Hl1. split.
+      + intros c Hc Hci Hpi. rewrite !Hg by assumption. apply Hh0. exact Hc.
+      + intros c Hc Epc Hi0. pose proof (par_lt i Hi0). pose proof (par_lt c ltac:(lia)).
+        rewrite !Hg by lia.
+        eapply (hp_le_trans less Hnt); [apply (Hh0 i); lia|]. rewrite <- Epc. apply Hh0. exact Hc.
+    - unfold hp_fix. rewrite Hd. exists l'. split; [destruct b; exact Hu|].
+      split; [apply (hp_heap_iff less x); rewrite Hl'; exact Hh'|]. split; [exact Hp|lia].
+  Qed.
+
+  (* Remove(i) of a heap, i valid: returns element i, the rest is a heap *)
+  Lemma hp_remove_spec (l : list A) (i : nat) :
+    hp_heap less l -> i < length l ->
+    exists v l', hp_remove less l i = HpOk (l', v) /\ nth_error l i = Some v /\
+                 hp_heap less l' /\ Permutation l (v :: l') /\ S (length l') = length l.
+  Proof.
+    intros Hh Hi. destruct l as [|r t]; [cbn in Hi; lia|].
+    set (l := r :: t) in *. assert (Hlen : length l = S (length t)) by reflexivity.
+    pose proof (proj1 (hp_heap_iff less r l) Hh) as Hh0.
+    unfold hp_remove. rewrite Hlen.
+    destruct (Nat.eqb_spec (length t) i) as [E | E].
+    - destruct (hp_pop_last_spec r l (length t) Hlen) as (Hr & Hs & Hfl).
+      rewrite Hr. exists (nth (length t) l r), (firstn (length t) l).
+      split; [reflexivity|]. split; [rewrite <- E; apply hp_nth_error_get; lia|].
+      split; [apply (hp_heap_iff less r); rewrite Hfl; apply heap_upto_firstn; [lia|]; intros c Hc; apply Hh0; lia|].
+      split; [rewrite Hs at 1; apply Permutation_sym, Permutation_cons_append|lia].
+    - destruct (hp_swap_some l i (length t)) as [l1 Hs]; [lia|lia|]. rewrite Hs.
+      destruct (hp_swap_spec _ _ _ _ Hs) as (_ & _ & Hlen1 & Hperm1 & _).
+      pose proof (fun k => hp_swap_get r l l1 i (length t) k Hs) as Hg.
+      destruct (hp_fix_prefix less Hasym Hnt r l1 (length t) i ltac:(lia) ltac:(lia)) as (l2 & b & l' & Hd & Hu & Hh' & Hp & Hl' & Hbey).
+      + split.
+        * intros c Hc Hci Hpi. rewrite !Hg. pose proof (par_lt c ltac:(lia)).
+          destruct (Nat.eqb_spec (par c) (length t)); [lia|]. destruct (Nat.eqb_spec (par c) i); [contradiction|].
+          destruct (Nat.eqb_spec c (length t)); [lia|]. destruct (Nat.eqb_spec c i); [contradiction|].
+          apply Hh0. lia.
+        * intros c Hc Epc Hi0. rewrite !Hg. pose proof (par_lt c ltac:(lia)). pose proof (par_lt i Hi0).
+          destruct (Nat.eqb_spec (par i) (length t)); [lia|]. destruct (Nat.eqb_spec (par i) i); [lia|].
+          destruct (Nat.eqb_spec c (length t)); [lia|]. destruct (Nat.eqb_spec c i); [lia|].
+          eapply (hp_le_trans less Hnt); [apply (Hh0 i); lia|]. rewrite <- Epc. apply Hh0. lia.
+      + rewrite Hd.
+        assert (Hpl : hp_pop_last l' = HpOk (firstn (length t) l', nth i l r) /\
+                      l' = firstn (length t) l' ++ [nth i l r] /\ length (firstn (length t) l') = length t).
+        { assert (El : nth (length t) l' r = nth i l r).
+          { rewrite Hbey by lia. rewrite Hg. rewrite Nat.eqb_refl. reflexivity. }
+          rewrite <- El. apply hp_pop_last_spec. lia. }
+        destruct Hpl as (Hr & Hsp & Hfl).
+        exists (nth i l r), (firstn (length t) l').
+        split.
+        { destruct b; [injection Hu as ->; exact Hr|]. rewrite Hu. exact Hr. }
+        split; [apply hp_nth_error_get; lia|].
+        split; [apply (hp_heap_iff less r); rewrite Hfl; apply heap_upto_firstn; [lia|exact Hh']|].
+        split; [|lia].
+        eapply perm_trans; [exact Hperm1|]. eapply perm_trans; [exact Hp|].
+        rewrite Hsp at 1. apply Permutation_sym, Permutation_cons_append.
+  Qed.
 
   (* ---------------------------------------------------------------- call sequences *)
   Lemma hp_apply_basic_spec (l : list A) (op : hp_op A) :
@@ -507,6 +747,65 @@ Section HeapOps.
         split; [discriminate|]. intros Hx. apply Hi in Hx. discriminate.
   Qed.
 
-  Lemma hp_heap_nil : hp_heap less (@nil A).
-  Proof. intros c x p _ H. destruct c; discriminate. Qed.
+
+  (* ---------------------------------------------------------------- all five calls *)
+  (* one call on a heap: it panics exactly when it is invalid (Pop on the empty queue,
+     Fix/Remove index out of range), never runs out of fuel, and a valid call keeps the
+     invariant and changes the length as expected *)
+  Lemma hp_apply_spec (l : list A) (op : hp_op A) :
+    hp_heap less l ->
+    (hp_op_valid (length l) op = true ->
+       exists l' o, hp_apply less l op = HpOk (l', o) /\ hp_heap less l' /\
+                    length l' = hp_size_after (length l) op) /\
+    (hp_op_valid (length l) op = false -> hp_apply less l op = HpPanic).
+  Proof.
+    intros Hh. destruct op as [x| | |i x|i]; cbn [hp_op_valid hp_size_after hp_apply].
+    - split; [|discriminate]. intros _.
+      destruct (hp_push_spec l x Hh) as (l' & Hr & H1 & _ & H3). rewrite Hr. eauto.
+    - destruct l as [|r t]; cbn [length].
+      + split; [discriminate|reflexivity].
+      + split; [|discriminate]. intros _.
+        destruct (hp_pop_spec (r :: t) Hh ltac:(discriminate)) as (m & l' & Hr & H1 & _ & H3 & _).
+        rewrite Hr. exists l', (Some m). cbn [length] in H3. split; [reflexivity|]. split; [exact H1|lia].
+    - split; [|discriminate]. intros _. eauto.
+    - destruct (Nat.ltb_spec i (length l)) as [Hi | Hi].
+      + split; [|discriminate]. intros _. unfold hp_set_checked.
+        destruct (nth_error l i) eqn:E; [|apply nth_error_None in E; lia].
+        destruct (hp_fix_spec l i x Hh Hi) as (l' & Hr & H1 & _ & H3). rewrite Hr. eauto.
+      + split; [discriminate|]. intros _. unfold hp_set_checked.
+        destruct (nth_error l i) eqn:E; [|reflexivity].
+        assert (i < length l) by (apply nth_error_Some; congruence). lia.
+    - destruct (Nat.ltb_spec i (length l)) as [Hi | Hi].
+      + split; [|discriminate]. intros _.
+        destruct (hp_remove_spec l i Hh Hi) as (v & l' & Hr & _ & H1 & _ & H3). rewrite Hr.
+        exists l', (Some v). split; [reflexivity|]. split; [exact H1|lia].
+      + split; [discriminate|]. intros _. unfold hp_remove.
+        destruct (length l) as [|n] eqn:El; [reflexivity|].
+        destruct (Nat.eqb_spec n i); [lia|].
+        unfold hp_swap. destruct (nth_error l i) eqn:E; [|reflexivity].
+        assert (i < length l) by (apply nth_error_Some; congruence). lia.
+  Qed.
+
+  (* every sequence of Push/Pop/Top/Fix/Remove calls on a heap: runs to the end iff every
+     call is valid when it is issued; then the invariant holds at the end (and, by
+     hp_apply_spec, after every call); never out of fuel *)
+  Lemma hp_run_spec (ops : list (hp_op A)) : forall (l : list A),
+    hp_heap less l ->
+    (hp_ops_valid (length l) ops = true ->
+       exists l' outs, hp_run less l ops = HpOk (l', outs) /\ hp_heap less l' /\
+                       length outs = length ops) /\
+    (hp_ops_valid (length l) ops = false -> hp_run less l ops = HpPanic).
+  Proof.
+    induction ops as [|op rest IH]; intros l Hh.
+    - cbn. split; [intros _; exists l, []; auto|discriminate].
+    - cbn [hp_ops_valid hp_run].
+      destruct (hp_apply_spec l op Hh) as [Hv Hi].
+      destruct (hp_op_valid (length l) op) eqn:Ev; cbn [andb].
+      + destruct (Hv eq_refl) as (l1 & o & Hr & Hh1 & Hl1). rewrite Hr. rewrite <- Hl1.
+        destruct (IH l1 Hh1) as [IHv IHi]. split.
+        * intros Hrest. destruct (IHv Hrest) as (l' & outs & Hr' & Hh' & Hlo).
+          rewrite Hr'. exists l', (o :: outs). cbn [length]. auto.
+        * intros Hrest. rewrite (IHi Hrest). reflexivity.
+      + rewrite (Hi eq_refl). split; [discriminate|reflexivity].
+  Qed.
 End HeapOps.
